@@ -341,6 +341,7 @@ fn damaged(rep: &Report, tier: Tier, outcomes: &Mutex<HashSet<u64>>) {
         let kind = op["kind"].as_str().unwrap_or("");
         let fmt = if is_ntv2(id) { "NTv2" } else { "Gravsoft" };
         match res {
+            WorkerOutcome::Skipped => rep.not_exhaustive("more than 200 cases of a worker space hung: the rest of that space was not run"),
             WorkerOutcome::Answer(a) if a == "ERR" => {
                 errs += 1;
                 if kind == "none" && id != "gen:ntv2cycle" && id != "gen:ntv2odd" {
@@ -450,6 +451,43 @@ fn well_formed(rep: &Report) {
                             "binary and ASCII renderings of the same NTv2 grid decode to different node values",
                             json!({"file": stem, "subgrid": name, "lat_deg": lat, "lon_deg": lon, "ascii_lat_lon_shift_arcsec": [la, lo], "expected_lon_lat_rad": want, "observed": format!("{other:?}")}),
                         ),
+                    }
+                }
+            }
+        }
+    }
+    // generated Gravsoft files: every layout of the same grid (row per line, one value per line, comments after
+    // a blank, comments glued to a number, CR LF, tabs and blank lines) decodes to the geometry and the nodes written
+    for bands in 1..=3usize {
+        let g = GeoDeg { lat_s: 54., lat_n: 56., lon_w: 8., lon_e: 11., dlat: 0.5, dlon: 0.75 };
+        let fv = move |r: usize, c: usize, b: usize| node_value(40 + bands as u32, r, c, b);
+        let reference = gravsoft_reference(&g, bands, &fv);
+        for layout in [TextLayout::RowPerLine, TextLayout::OneValuePerLine, TextLayout::WithComments, TextLayout::GluedComments, TextLayout::Crlf, TextLayout::TabsAndBlankLines] {
+            let text = gravsoft_text(&g, bands, &fv, layout);
+            rep.eval(1);
+            let grid = match catch(|| BaseGrid::gravsoft(text.as_bytes())) {
+                Ok(Ok(gr)) => gr,
+                other => {
+                    rep.violation(&format!("well-formed generated Gravsoft file rejected / {layout:?}"), json!({"bands": bands, "layout": format!("{layout:?}"), "result": format!("{:?}", other.map(|r| r.map(|_| "grid").map_err(|e| e.to_string()))), "text": text.chars().take(300).collect::<String>()}));
+                    continue;
+                }
+            };
+            if grid.bands() != bands {
+                rep.violation(&format!("generated Gravsoft file decoded with the wrong number of bands / {layout:?}"), json!({"bands": bands, "observed": grid.bands()}));
+                continue;
+            }
+            for row in 0..g.rows() {
+                for col in 0..g.cols() {
+                    let (lat, lon) = ((g.lat_n - row as f64 * g.dlat).to_radians(), (g.lon_w + col as f64 * g.dlon).to_radians());
+                    rep.eval(1);
+                    let want = reference.at(lon, lat);
+                    let got = catch(|| grid.at(&Coor4D([lon, lat, 0., 0.]), 0.5));
+                    let ok = match &got {
+                        Ok(Some(v)) => (0..bands).all(|b| (v[b] - want[b]).abs() <= 1e-9 * want[b].abs().max(1e-12)),
+                        _ => false,
+                    };
+                    if !ok {
+                        rep.violation(&format!("generated Gravsoft node not decoded as written / {layout:?}"), json!({"bands": bands, "layout": format!("{layout:?}"), "row": row, "col": col, "expected": want, "observed": format!("{got:?}")}));
                     }
                 }
             }
